@@ -21,6 +21,8 @@ func HarnessC14L3() {
 		{"a-b", "a_b", "aB", "AB", "a b", "A_B_2", "a.b", "a-b-2"},
 		{"id", "Id", "ID", "i_d", "Id_2", "id2", "ID_3", "_id"},
 		{"x1", "x_1", "X1", "x-1", "X1_2", "X_1_2", "x1_", "1x"},
+		// characters that matter to whoever formats the tag text
+		{"cpu%", "mem%d", "used%s", "100%%", "a%!b", "%v", "cpu", "mem"},
 		// white space inside names: single and double spaces, a tab, a no-break space
 		{"first name", "first  name", "first\tname", "first\u00a0name", " first name", "first name ", "firstName", "first_name"},
 	}
@@ -86,4 +88,22 @@ func HarnessC14L3() {
 		return
 	}
 	zzvrt.Check("C14.L3.document-with-all-keys-accepted", accepted)
+	// binding: the same keys with ONE of them carrying a string instead: rejected, whichever key
+	// it is (every key is bound to its own typed field)
+	bad := zzvrt.Choice(len(names))
+	d2 := zzvrt.NewDoc()
+	zzTypeCorrectObject(d2)
+	for k, n := range names {
+		if k == bad {
+			zzvrt.Assume(zzvrt.DIs(d2, n, zzvrt.KString))
+		} else {
+			zzvrt.Assume(zzvrt.And(zzvrt.DIs(d2, n, zzvrt.KNumber), zzvrt.DIsInt(d2, n)))
+		}
+	}
+	_, accepted2, ok := zzRunT("C14.L3", h, g.getRootTypeName(sch, "root.json"), "json", d2)
+	if !ok {
+		return
+	}
+	zzvrt.Check("C14.L3.every-key-is-bound-to-its-typed-field", !accepted2)
+	zzvrt.Check("C03.L3.wrong-type-rejected-whatever-the-property-is-called", !accepted2)
 }
